@@ -122,6 +122,13 @@ func (m *Machine) evalTerm(t *sym.Term) sym.Val {
 	return sym.Eval(t, m.Model, memo)
 }
 
+func (m *Machine) evalTermBool(t *sym.Term) bool {
+	if t.IsConst() {
+		return t.IsTrue()
+	}
+	return sym.Eval(t, m.Model, map[int]sym.Val{}).B()
+}
+
 func (m *Machine) oracleEval(e oracle.Expr, node int) (v oracle.Val) {
 	defer func() {
 		if r := recover(); r != nil {
@@ -296,22 +303,26 @@ func registerOracleScalars(m *Machine) {
 	}
 	e[hpkg+"vCheckStr"] = func(m *Machine, fr *frame, a []value) value {
 		key, node := m.checkCtx(a)
-		v := m.oracleEval(m.oracleExpr(key), node)
-		if v.K != oracle.KStr {
-			abort("oracle: expression %s is not string-valued", key)
-		}
 		d := m.OracleDoc()
 		gs, gb := strBytes(a[3])
 		gotCase := oracle.StrCase{Cond: m.Ctx.T, S: gs, B: gb}
-		var disj []*sym.Term
 		refStr := "?"
-		for _, sc := range v.S {
-			disj = append(disj, m.Ctx.And(sc.Cond, d.CaseEq(sc, gotCase)))
-			if m.evalTerm(sc.Cond).B() {
-				refStr = d.CaseConcrete(sc, func(t *sym.Term) byte { return byte(m.evalTerm(t).U) })
+		build := func() *sym.Term {
+			v := m.oracleEval(m.oracleExpr(key), node)
+			if v.K != oracle.KStr {
+				abort("oracle: expression %s is not string-valued", key)
 			}
+			var disj []*sym.Term
+			for _, sc := range v.S {
+				disj = append(disj, m.Ctx.And(sc.Cond, d.CaseEq(sc, gotCase)))
+				if m.evalTerm(sc.Cond).B() {
+					refStr = d.CaseConcrete(sc, func(t *sym.Term) byte { return byte(m.evalTerm(t).U) })
+				}
+			}
+			return m.Ctx.Or(disj...)
 		}
-		m.addObligation(key+":string", m.Ctx.Or(disj...), fmt.Sprintf("got %q reference(model) %q", gs, refStr))
+		t := build()
+		m.addObligationFB(key+":string", t, fmt.Sprintf("got %q reference(model) %q", gs, refStr), build)
 		return nil
 	}
 }
